@@ -98,6 +98,9 @@ Reply(a) ==
     [] a.op = "qcap"   -> cap
     [] a.op = "qev"    -> evict
     [] a.op = "qstats" -> [len |-> Len(order), size |-> size, cap |-> cap, ev |-> evict]
+    \* the listings: one instant's recency order, each key with the value it has at that instant
+    [] a.op = "qkeys"  -> [keys |-> order]
+    [] a.op = "qitems" -> [keys |-> order, vals |-> [i \in 1..Len(order) |-> val[order[i]]]]
     [] OTHER           -> 0
 
 Do(a) ==
@@ -110,7 +113,7 @@ Do(a) ==
     [] a.op = "get" ->
          /\ order' = IF Has(a.k) THEN Front(order, a.k) ELSE order
          /\ UNCHANGED <<val, sz, size, cap, evict, sized>>
-    [] a.op \in {"peek", "exist", "qlen", "qsize", "qcap", "qev", "qstats"} -> UNCHANGED vars
+    [] a.op \in {"peek", "exist", "qlen", "qsize", "qcap", "qev", "qstats", "qkeys", "qitems"} -> UNCHANGED vars
     [] a.op = "del" ->
          IF Has(a.k)
          THEN /\ order' = Without(order, a.k) /\ val' = Rem(val, a.k) /\ sz' = Rem(sz, a.k)
@@ -158,7 +161,7 @@ Bounded    == SumSz(order) <= cap                 \* after every operation
 TinyCounts == ~sized => \A k \in Keys : sz[k] = 1
 
 (* read-only methods are read-only; Get/SetIfAbsent only reorder *)
-ReadOnly == [][last'.op \in {"peek", "exist", "qlen", "qsize", "qcap", "qev", "qstats"} => UNCHANGED vars]_allvars
+ReadOnly == [][last'.op \in {"peek", "exist", "qlen", "qsize", "qcap", "qev", "qstats", "qkeys", "qitems"} => UNCHANGED vars]_allvars
 Reorders == [][last'.op \in {"get"} => UNCHANGED <<val, sz, size, cap, evict>> /\ Keys' = Keys]_allvars
 
 (* Evictions take strictly the least recently used entries: whatever     *)
